@@ -25,7 +25,8 @@ const (
 
 // zone names of the simulated database (built by the orchestrator under $ZONEINFO)
 var simZonesGood = []string{"Sim/Shanghai", "Sim/NewYork", "Sim/LordHowe", "Sim/Kathmandu", "UTC", "Asia/Shanghai", "Europe/London", "",
-	"Etc/GMT+5", "Etc/GMT-3", "Etc/GMT+12", "Etc/GMT-14", "Etc/GMT", "America/St_Johns", "Asia/Kolkata", "Pacific/Chatham"}
+	"Etc/GMT+5", "Etc/GMT-3", "Etc/GMT+12", "Etc/GMT-14", "Etc/GMT", "America/St_Johns", "Asia/Kolkata", "Pacific/Chatham",
+	"America/Argentina/Buenos_Aires", "America/Indiana/Knox", "America/Kentucky/Louisville", "America/North_Dakota/Center", "EST5EDT", "Local"}
 var simZonesBad = []string{"Sim/Missing", "Sim/Empty", "Sim/Torn", "Sim/Garbage", "No/Such_Zone", "../etc/passwd", "Sim"}
 
 type clockSample struct {
@@ -432,6 +433,24 @@ func (w *clockWorld) opUseTZ(s *Stream) {
 	w.rc.probe("usetz_good_zone")
 }
 
+// opCancelled evaluates a zone conversion under a context that is already cancelled. The
+// statement says nothing about contexts, so the outcome of THIS evaluation is not judged;
+// what it may leave behind is judged by every later operation.
+func (w *clockWorld) opCancelled(s *Stream) {
+	t := w.pick(s)
+	name := simZonesGood[s.Intn(len(simZonesGood))]
+	w.r.SetThisValue("t0", t)
+	text := "useTimezone(t0, '" + name + "')"
+	w.ops = append(w.ops, text+" under a cancelled context (outcome not judged)")
+	ctx, cancel := context.WithCancel(context.Background())
+	cancel()
+	saved := w.ctx
+	w.ctx = ctx
+	w.eval(text)
+	w.ctx = saved
+	w.rc.probe("evaluation_under_a_cancelled_context")
+}
+
 func (w *clockWorld) opFormat(s *Stream) {
 	t := w.pick(s)
 	layout := numericLayouts[s.Intn(len(numericLayouts))]
@@ -528,7 +547,11 @@ func runClock(rc *RunCtx) {
 			case r < 15:
 				w.opAddDate(wl)
 			case r < 17:
-				w.opUseTZ(wl)
+				if wl.Intn(6) == 0 {
+					w.opCancelled(wl)
+				} else {
+					w.opUseTZ(wl)
+				}
 			case r < 19:
 				w.opFormat(wl)
 			default:
